@@ -1,4 +1,9 @@
 #!/bin/sh
+# Development experiment, not a registered check (nothing in MANIFEST.json calls it).  Prerequisites it assumes:
+#   /tmp/harm/H1      a scratch worktree of /repo        (git -C /repo worktree add --detach /tmp/harm/H1 HEAD)
+#   /tmp/extract_new  the extractor                        (cd /verif/tools/extract && go build -o /tmp/extract_new .)
+#   /tmp/leandev      a private copy of /verif/lean with its own .lake   (rsync -a /verif/lean/ /tmp/leandev/)
+# Remove all three afterwards (git -C /repo worktree remove --force /tmp/harm/H1).
 # for every stored seeded change that touches node.go: does the regenerated-node.go tie alone (translation + Proofs/GenNodeOps
 # + Props/C1xNodeOps, no correspondence run) notice it?
 cd /tmp/harm/H1 && git checkout -q -- . 
